@@ -147,14 +147,25 @@ fn sep(rng: &mut Rng) -> Vec<u8> {
     s
 }
 
+/// A decimal spelling of `v`: now and then padded with leading zeros to 2..40 characters.
+fn num(rng: &mut Rng, v: u32) -> Vec<u8> {
+    let s = v.to_string();
+    if rng.chance(1, 12) {
+        let width = *rng.pick(&[2usize, 4, 9, 10, 11, 12, 20, 33, 40]);
+        format!("{:0>width$}", s, width = width).into_bytes()
+    } else {
+        s.into_bytes()
+    }
+}
+
 fn wellformed(rng: &mut Rng, fmt: u8, w: u32, h: u32, pix: &[u8]) -> Vec<u8> {
     let mut f = vec![b'P', b'0' + fmt];
     f.extend(sep(rng));
-    f.extend(w.to_string().bytes());
+    f.extend(num(rng, w));
     f.extend(sep(rng));
-    f.extend(h.to_string().bytes());
+    f.extend(num(rng, h));
     f.extend(sep(rng));
-    f.extend(b"255");
+    f.extend(num(rng, 255));
     let gray: Vec<u8> = pix.chunks(3).map(|c| c[0]).collect();
     match fmt {
         6 => {
@@ -169,7 +180,7 @@ fn wellformed(rng: &mut Rng, fmt: u8, w: u32, h: u32, pix: &[u8]) -> Vec<u8> {
             let vals: &[u8] = if fmt == 3 { pix } else { &gray };
             for v in vals {
                 f.extend(sep(rng));
-                f.extend(v.to_string().bytes());
+                f.extend(num(rng, *v as u32));
             }
             if rng.chance(1, 2) {
                 f.push(10);
